@@ -174,6 +174,30 @@ pub fn phase_reload(e: &E2e, keep: &[u8], remove: u8, add: u8, next_seq: u32) ->
     phase_keepalive(e, keep, 1500)
 }
 
+/// C19: a reload requested while the start-up probe round is still open (one address does not answer its probe)
+/// is a valid reload like any other: it is applied, not lost.
+pub fn phase_reload_early(e: &E2e, keep: &[u8], remove: u8, add: u8) -> CheckResult {
+    // the signal listener exists once the sender has sent its first frame (it is created before the first housekeeping pass)
+    let seen = e.wait_until(Duration::from_secs(8), |lg| !lg.regs.is_empty());
+    vensure!(seen, "e2e-harness", "the sender sent no registration frame within 8 s");
+    let mut list: Vec<u8> = keep.to_vec();
+    list.push(add);
+    let text: String = list.iter().map(|k| format!("{}
+", crate::engine::shell::link_ip(*k))).collect();
+    std::fs::write(&e.ips_path, text).unwrap();
+    let t_reload = e.ms();
+    e.sighup();
+    let ok = e.wait_until(Duration::from_secs(20), |lg| lg.members.contains(&add) && keep.iter().all(|k| lg.members.contains(k)));
+    vensure!(ok, "e2e-new-address-not-added", "real event loop: a reload requested {} ms after start-up (probe round still open: address {remove} does not answer) was not applied within 20 s - address {add} never registered (members {:?})", t_reload, e.log.lock().unwrap().members);
+    std::thread::sleep(Duration::from_millis(2500));
+    {
+        let lg = e.log.lock().unwrap();
+        let late = lg.order.iter().filter(|o| o.1 == remove && o.4 > t_reload + 2500).count();
+        vensure!(late == 0, "e2e-stale-link-kept", "real event loop: address {remove} was removed by a reload during start-up but still sent {late} datagrams 2.5 s later");
+    }
+    phase_uplink(e, 3000, 200, 300)
+}
+
 /// C18: the real Unix control socket answers like the stdin dispatcher; notifications get nothing.
 pub fn phase_control(e: &E2e, lines: &[String]) -> CheckResult {
     phase_control_at(&e.ctl_path, &e.config, None, lines)
@@ -550,6 +574,7 @@ pub fn phase_handshake(e: &E2e, addrs: &[u8], lost: u32, forget_err: bool) -> Ch
 
 #[derive(Clone, Copy, PartialEq, Eq, Debug)]
 pub enum Phase {
+    ReloadEarly,
     Handshake,
     ModeTicks,
     Recovery,
@@ -622,6 +647,8 @@ pub fn run(ctx: &Ctx, phase: Phase, scenarios: usize) {
             let lost_reg1 = 1 + ((z >> 28) % 2) as u32;
             let started = if phase == Phase::Handshake {
                 E2e::start_raw(&addrs, cfg, crate::engine::e2e::RxPolicy { ignore_reg1: lost_reg1, ..Default::default() })
+            } else if phase == Phase::ReloadEarly {
+                E2e::start_raw(&addrs, cfg, crate::engine::e2e::RxPolicy { muted: [addrs[n_links - 1]].into_iter().collect(), ..Default::default() })
             } else {
                 E2e::start(&addrs, cfg, Duration::from_secs(20))
             };
@@ -656,6 +683,7 @@ pub fn run(ctx: &Ctx, phase: Phase, scenarios: usize) {
                 }
                 Phase::Subscription => phase_subscription(&e, &addrs),
                 Phase::ModeTicks => phase_mode_ticks(&e, &addrs, classic),
+                Phase::ReloadEarly => phase_reload_early(&e, &addrs[..n_links - 1], addrs[n_links - 1], base + 30),
                 Phase::Handshake => phase_handshake(&e, &addrs, lost_reg1, (z >> 30) & 1 == 1),
                 Phase::Recovery => phase_recovery(&e, &addrs, recovery_timeout, 8),
                 Phase::RecoveryEligibility => phase_recovery(&e, &addrs, recovery_timeout, 4),
